@@ -572,18 +572,22 @@ func c09Run(t *testing.T, c *evid.Collector) {
 			{Family: "orphan:initiate", Method: "POST", Bucket: "bk2", Key: "new", Query: q("uploads", s3x.Bare)},
 			{Family: "orphan:put", Method: "PUT", Bucket: "bk2", Key: "a", Body: []byte("x")},
 		}
+		violated := false // a hang costs a watchdog period per request: one report is enough
 		for _, cfg := range cfgs {
 			if cfg.K.IsSingle() || cfg.O.AutoBucket {
 				continue
 			}
 			for _, recreate := range []bool{false, true} {
 				for i := range reqs {
+					if violated {
+						break
+					}
 					// each request first, then all of them in order
 					cs := c09Case{Backend: cfg.K, Opts: cfg.O, Setup: append([]prog.Op{{K: "mkbucket", B: "bk0"}}, c09Orphans(recreate)...), Requests: append([]lreq{reqs[i]}, reqs...)}
 					ds := c09Exec(cs, func(l lreq, rq *s3x.Req, r *s3x.Resp) {
 						c.Case(evid.FP("orphan", string(cfg.K), mustJSON(cfg.O), fmt.Sprint(recreate, i), mustJSON(l)), true, func() interface{} { return l }, "family:"+l.Family, "backend:"+string(cfg.K), "src:fixed-orphans")
 					})
-					report(c, "request", ds, cs)
+					violated = report(c, "request", ds, cs)
 				}
 			}
 		}
